@@ -25,7 +25,7 @@ def cap (t : Ideal α) : Nat := 2 ^ t.depth
 
 def new (depth : Nat) : Ideal α := { depth, writes := [], next := 0, live := [] }
 
-def leaf [BEq α] (dflt : α) (t : Ideal α) (i : Nat) : α :=
+def leaf (dflt : α) (t : Ideal α) (i : Nat) : α :=
   match t.writes.lookup i with
   | some v => v
   | none => dflt
@@ -34,8 +34,6 @@ def leaf [BEq α] (dflt : α) (t : Ideal α) (i : Nat) : α :=
 def nodeAux (H : α → α → α) (lf : Nat → α) : Nat → Nat → α
   | 0, i => lf i
   | k+1, i => H (nodeAux H lf k (2 * i)) (nodeAux H lf k (2 * i + 1))
-
-variable [BEq α]
 
 def node (H : α → α → α) (dflt : α) (t : Ideal α) (l i : Nat) : α :=
   nodeAux H (t.leaf dflt) (t.depth - l) i
@@ -96,9 +94,11 @@ def setRange (t : Ideal α) (start : Nat) (vs : List α) : Outcome (Ideal α) :=
     .ok { t.writeMany start vs with next := if vs.isEmpty then t.next else max t.next (start + vs.length) }
   else .err
 
+/-- reset each listed position (a position at or above the high-water mark was never written and
+    already holds the default leaf, so `delete` leaves it alone) -/
 def removeMany (dflt : α) (t : Ideal α) : List Nat → Ideal α
   | [] => t
-  | i :: r => removeMany dflt { t with writes := (i, dflt) :: t.writes, live := (i, false) :: t.live } r
+  | i :: r => removeMany dflt (t.delete dflt i) r
 
 /-- batch update (C08): reset every removed position, then write the leaves at consecutive
     positions; rejected (state unchanged) when the range or a removal is beyond capacity, or when
